@@ -251,7 +251,13 @@ pub fn finish(ctx: &Ctx, ev: Ev, spec: Spec) -> i32 {
     let mut printed_known: HashSet<String> = HashSet::new();
     let mut unlisted = 0u64;
     let replays = ctx.root.join("replays");
+    let mut harness_faults: Vec<String> = vec![];
     for (i, v) in ev.violations.iter().enumerate() {
+        // a failed self-check of the machinery says nothing about the code under test: inconclusive, never a violation
+        if v.sig.starts_with("harness-") {
+            harness_faults.push(format!("{}: {}", v.sig, v.detail));
+            continue;
+        }
         if let Some((_, line)) = known.iter().find(|(s, _)| *s == v.sig) {
             if printed_known.insert(v.sig.clone()) {
                 println!("KNOWN-FINDING: property={} {} [{}]", ctx.id, v.detail, line);
@@ -284,6 +290,10 @@ pub fn finish(ctx: &Ctx, ev: Ev, spec: Spec) -> i32 {
         if ev.get(k) < *min {
             missed.push(format!("{}={}<{}", k, ev.get(k), min));
         }
+    }
+    if code == 0 && !harness_faults.is_empty() {
+        println!("INCONCLUSIVE property={} self-check of the machinery failed: {}", ctx.id, harness_faults[0]);
+        code = 2;
     }
     if code == 0 && !missed.is_empty() {
         println!("INCONCLUSIVE property={} coverage floor(s) not reached: {}", ctx.id, missed.join(" "));
